@@ -83,8 +83,9 @@ class Pi(schemes.interface.inverted_index_sse.InvertedIndexSSE):
         for i in range(t + 1):
             d_len = (2 ** i) * len(self.config.ske.Encrypt(b"\x00" * self.config.param_k_prime,
                                                            b"\x00" * self.config.param_identifier_size))
+            # every list on level i has more than 2^(i-1) real postings, so fewer than 2^(t-i+1) lists can land there
             T_list[i].extend(
-                ((os.urandom(self.config.param_l), os.urandom(d_len)) for _ in range((2 ** (t - i)) - len(T_list[i]))))
+                ((os.urandom(self.config.param_l), os.urandom(d_len)) for _ in range((2 ** (t - i + 1)) - len(T_list[i]))))
 
         # padding list S to N elements, dummy values have the same length as the real encrypted sizes
         ni_prime_len = len(self.config.ske.Encrypt(b"\x00" * self.config.param_k_prime,
